@@ -242,7 +242,10 @@ pub fn inflate_loop_from(
 ) -> InfResult {
     let mut buf = vec![0u8; room.min(1 << 20)];
     let mut calls = 0u32;
-    let limit = (data.len() * 2 + 8) as u32 + 1_000_000;
+    // every call either makes progress or is one of a few idle calls; the absolute cap only guards
+    // against a wrapper that "progresses" forever
+    let limit = 400_000_000u32;
+    let mut idle = 0u32;
     let mut code;
     loop {
         let end = ip.saturating_add(chunk).min(data.len());
@@ -257,7 +260,8 @@ pub fn inflate_loop_from(
         if code != 0 {
             break;
         }
-        if calls > limit {
+        idle = if r.bytes_consumed == 0 && r.bytes_written == 0 { idle + 1 } else { 0 };
+        if calls > limit || idle > 16 {
             code = -7777; // livelock marker
             break;
         }
